@@ -68,6 +68,9 @@ type WorkerResult struct {
 	// Enumerated counts runs whose leading choices were forced by an
 	// exhaustive enumeration (fault vectors of C20).
 	Enumerated int `json:"enumerated,omitempty"`
+	// Scheds are the distinct schedule hashes ((task, site) sequences) of the
+	// concurrent blocks executed.
+	Scheds []uint64 `json:"scheds,omitempty"`
 }
 
 // Prefixes maps a property to the function that forces the leading choices of
@@ -115,6 +118,7 @@ func RunBatch(prop, tier string, seed uint64, start, count int, known map[string
 	res := &WorkerResult{Prop: prop, Seed: seed, Start: start, Count: count,
 		Faults: map[string]int{}, Probes: map[string]int{}, KnownHits: map[string]*KnownHit{}}
 	shapes := map[uint64]bool{}
+	scheds := map[uint64]bool{}
 	logHash := sha256.New()
 	for i := start; i < start+count; i++ {
 		if progress != nil {
@@ -147,6 +151,9 @@ func RunBatch(prop, tier string, seed uint64, start, count int, known map[string
 		res.Ops += r.Ops
 		res.Steps += r.Steps
 		res.Checks += r.Checks
+		for _, h := range r.sched {
+			scheds[h] = true
+		}
 		if r.Checks > 0 {
 			res.Nontriv++
 			h := tape.HashString(r.Shape())
@@ -181,6 +188,10 @@ func RunBatch(prop, tier string, seed uint64, start, count int, known map[string
 		res.Shapes = append(res.Shapes, h)
 	}
 	sort.Slice(res.Shapes, func(a, b int) bool { return res.Shapes[a] < res.Shapes[b] })
+	for h := range scheds {
+		res.Scheds = append(res.Scheds, h)
+	}
+	sort.Slice(res.Scheds, func(a, b int) bool { return res.Scheds[a] < res.Scheds[b] })
 	if logTo != nil {
 		res.LogHash = hex.EncodeToString(logHash.Sum(nil))
 	}
@@ -297,4 +308,21 @@ func WriteJSON(path string, v any) error {
 		return err
 	}
 	return os.WriteFile(path, append(b, '\n'), 0o644)
+}
+
+// TapeOfRun executes run i and returns the tape it recorded.
+func TapeOfRun(prop, tier string, seed uint64, i int, known map[string]bool) []uint32 {
+	sc, ok := Scenarios[prop]
+	if !ok {
+		panic("no scenario for " + prop)
+	}
+	t := tape.New(RunSeed(seed, prop, i))
+	if pf := Prefixes[prop]; pf != nil {
+		if prefix := pf(tier, i); prefix != nil {
+			t = tape.NewWithPrefix(RunSeed(seed, prop, i), prefix)
+		}
+	}
+	r := NewRun(t, prop, tier, known)
+	Execute(r, sc)
+	return t.Recorded()
 }
